@@ -325,7 +325,7 @@ fn run_plan(out: &mut Out, seed: u64, shard: u64, i: u64, per_lib: u64, cap: usi
     let mut lib = build_library_from(&mut lrng, 5, true, name_pool_c03());
     for w in ["old", "new", "newv", "mixed"] {
         let bytes = wit_component_bytes(WIT_VERSIONED, w).unwrap_or_else(|e| panic!("wit world {w}: {e:?}"));
-        lib.push(LibPkg { name: format!("witv:{}", w), version: None, bytes, origin: "wit" });
+        lib.push(LibPkg { name: format!("witv:{}", w), version: None, bytes, origin: "wit", shapes: None });
     }
     let mut rng = Rng::new(seed.wrapping_mul(1_000_003).wrapping_add(shard.wrapping_mul(7907)).wrapping_add(i.wrapping_mul(104_723)));
     let n_nodes = if rng.chance(3, 4) { 2 + rng.below(5) } else { 7 + rng.below(4) };
